@@ -382,6 +382,10 @@ func Sub(a, b *Term) *Term {
 	if a.lit != nil && b.lit != nil {
 		return BigLit(new(big.Int).Sub(a.lit, b.lit))
 	}
+	// (x + c1) - c2
+	if b.lit != nil && a.Op == "+" && len(a.Args) == 2 && a.Args[1].lit != nil && a.lit == nil {
+		return Add(a.Args[0], BigLit(new(big.Int).Sub(a.Args[1].lit, b.lit)))
+	}
 	if b.lit != nil && b.lit.Sign() == 0 {
 		return a
 	}
@@ -449,6 +453,14 @@ func Select(a, i *Term) *Term {
 	a = lookThrough(a)
 	if a.Op == "shl" {
 		return Select(a.Args[0], Add(a.Args[1], i))
+	}
+	if a.Op == "consarr" && i.lit != nil {
+		if i.lit.Sign() == 0 {
+			return a.Args[0]
+		}
+		if i.lit.Sign() > 0 {
+			return Select(a.Args[1], Sub(i, IntLit(1)))
+		}
 	}
 	// select over store with syntactically decidable indices
 	hit := false
@@ -553,7 +565,26 @@ func Ctor(ctor string, args ...*Term) *Term {
 
 // Strings ---------------------------------------------------------------
 
-func MkStr(arr, ln *Term) *Term { return Ctor("mkstr", arr, ln) }
+func MkStr(arr, ln *Term) *Term { return Ctor("mkstr", trimStores(arr, ln), ln) }
+
+// trimStores drops stores at or beyond the length of a string: they are not part of its contents.
+func trimStores(arr, n *Term) *Term {
+	for arr.Op == "store" && arr.S == SArrI {
+		idx := arr.Args[1]
+		drop := same(idx, n)
+		if !drop && idx.Op == "+" && len(idx.Args) == 2 && idx.Args[1].lit != nil && idx.Args[1].lit.Sign() >= 0 && same(idx.Args[0], n) {
+			drop = true
+		}
+		if !drop && idx.lit != nil && n.lit != nil && idx.lit.Cmp(n.lit) >= 0 {
+			drop = true
+		}
+		if !drop {
+			break
+		}
+		arr = arr.Args[0]
+	}
+	return arr
+}
 
 // Shl shifts an array: Shl(a, o)[k] == a[o+k] (axiomatised in every query).
 func Shl(arr, off *Term) *Term {
@@ -563,8 +594,19 @@ func Shl(arr, off *Term) *Term {
 	if arr.Op == "shl" {
 		return Shl(arr.Args[0], Add(arr.Args[1], off))
 	}
+	// shifting past a prepended element drops it
+	if arr.Op == "consarr" && off.lit != nil && off.lit.Sign() > 0 {
+		return Shl(arr.Args[1], Sub(off, IntLit(1)))
+	}
+	// a store commutes with the shift (string contents live at indices >= 0 only)
+	if arr.Op == "store" && arr.S == SArrI {
+		return Store(Shl(arr.Args[0], off), Sub(arr.Args[1], off), arr.Args[2])
+	}
 	return App("shl", SArrI, arr, off)
 }
+
+// ConsArr prepends one element: ConsArr(c, a)[0] == c, ConsArr(c, a)[i+1] == a[i] (axiomatised in every query that uses it).
+func ConsArr(c, a *Term) *Term { return App("consarr", SArrI, c, a) }
 func StrArr(s *Term) *Term            { return Sel("sarr", s) }
 func StrLen(s *Term) *Term            { return Sel("slen", s) }
 func StrAt(s, i *Term) *Term          { return Select(StrArr(s), i) }
@@ -696,6 +738,8 @@ func rebuild(op string, s Sort, args []*Term) *Term {
 		return Select(args[0], args[1])
 	case "shl":
 		return Shl(args[0], args[1])
+	case "store":
+		return Store(args[0], args[1], args[2])
 	}
 	if _, ok := selToCtor[op]; ok && len(args) == 1 {
 		return Sel(op, args[0])
